@@ -6,8 +6,8 @@ namespace YaraModel.Scan
 
 /-! ### result codes -/
 
-theorem loadModules_result (P : Params) (cb : Nat → CbRet) (ms : List Nat) (c : Core) (it : It) (w : World) :
-    (loadModules P cb ms c it w).result = .success ∨ (loadModules P cb ms c it w).result = .callbackError := by
+theorem loadModules_result (P : Params) (cb : Nat → CbRet) (pm : Bool) (ms : List Nat) (c : Core) (it : It) (w : World) :
+    (loadModules P cb pm ms c it w).result = .success ∨ (loadModules P cb pm ms c it w).result = .callbackError := by
   induction ms generalizing c it w with
   | nil => left; rfl
   | cons m ms ih =>
@@ -50,7 +50,7 @@ theorem exec_result (P : Params) (cb : Nat → CbRet) (set : Settings) (fs : Opt
     (c : Core) (it : It) (w : World) : (exec P cb set fs stack c it w).result ≠ .blockNotReady := by
   simp only [exec]
   split
-  · rcases loadModules_result P cb P.imports c it w with h | h <;> simp [h]
+  · rcases loadModules_result P cb set.processMemory P.imports c it w with h | h <;> simp [h]
   · exact execRules_result P set fs stack _ _ _ _
 
 theorem exec_modules (P : Params) (cb : Nat → CbRet) (set : Settings) (fs : Option Nat) (stack : Nat)
@@ -268,8 +268,19 @@ theorem stepH_inv (P : Params) (v : Variant) (st : HSt) (op : HOp) (h : HInv st)
       have := scanCall_inv P v st.cb st.stack st.sc st.it st.w h.inv.modules (fun _ => h.susp hl)
       exact ⟨this.1, this.2⟩
     · exact h
+  | config set => exact ⟨h.inv, h.susp⟩
+  | proc mem =>
+    cases mem with
+    | none => exact h
+    | some x =>
+      simp only [stepH, HSt.after]
+      have := scanCall_inv P v x.cb x.stack { st.sc with set := { st.sc.set with processMemory := true } } x.it
+        { st.w with nmsg := 0 } h.inv.modules (fun hh => by cases hh)
+      exact ⟨this.1, this.2⟩
 
-theorem stepH_set (P : Params) (v : Variant) (st : HSt) (op : HOp) : (stepH P v st op).1.sc.set = st.sc.set := by
+/-- **settings survive every call**: only `config` changes them (scan_proc restores what it found) -/
+theorem stepH_set (P : Params) (v : Variant) (st : HSt) (op : HOp) :
+    (stepH P v st op).1.sc.set = match op with | .config s => s | _ => st.sc.set := by
   cases op with
   | start x => simp only [stepH, HSt.after]; exact scanCall_set ..
   | cont =>
@@ -277,16 +288,22 @@ theorem stepH_set (P : Params) (v : Variant) (st : HSt) (op : HOp) : (stepH P v 
     split
     · simp only [HSt.after]; exact scanCall_set ..
     · rfl
+  | config set => rfl
+  | proc mem => cases mem <;> rfl
 
 theorem runH_inv (P : Params) (v : Variant) (st : HSt) (ops : List HOp) (h : HInv st) : HInv (runH P v st ops) := by
   induction ops generalizing st with
   | nil => exact h
   | cons op ops ih => exact ih _ (stepH_inv P v st op h)
 
-theorem runH_set (P : Params) (v : Variant) (st : HSt) (ops : List HOp) : (runH P v st ops).sc.set = st.sc.set := by
+theorem runH_set (P : Params) (v : Variant) (st : HSt) (ops : List HOp) :
+    (runH P v st ops).sc.set = settingsAfter st.sc.set ops := by
   induction ops generalizing st with
   | nil => rfl
-  | cons op ops ih => exact (ih _).trans (stepH_set P v st op)
+  | cons op ops ih =>
+    simp only [runH]
+    rw [ih, stepH_set]
+    cases op <;> rfl
 
 /-- two scanner/caller states that differ at most in the stale `file_size` -/
 structure HSt.Equiv (a b : HSt) : Prop where
@@ -321,6 +338,18 @@ theorem stepH_equiv (P : Params) (v : Variant) (a b : HSt) (op : HOp) (h : HSt.E
       have e := obs_equiv this a.cb a.stack a b
       exact ⟨e.1, by rw [e.2]⟩
     · exact ⟨h, rfl⟩
+  | config set => exact ⟨⟨rfl, h.core, h.it, h.cb, h.stack, h.w, h.lastRc⟩, rfl⟩
+  | proc mem =>
+    cases mem with
+    | none => exact ⟨h, rfl⟩
+    | some x =>
+      simp only [stepH]
+      have := scanCall_congr P v x.cb x.stack { a.sc with set := { a.sc.set with processMemory := true } }
+        { b.sc with set := { b.sc.set with processMemory := true } } x.it { a.w with nmsg := 0 } (by simp [h.set]) h.core
+      rw [← h.w]
+      simp only [CallOut.obs, Prod.mk.injEq] at this
+      obtain ⟨h1, h2, h3, h4, h5, h6⟩ := this
+      exact ⟨⟨h.set, h2, h3, rfl, rfl, h4, h6⟩, by simp [h5, h6]⟩
 
 theorem tracesH_equiv (P : Params) (v : Variant) (a b : HSt) (ops : List HOp) (h : HSt.Equiv a b) :
     tracesH P v a ops = tracesH P v b ops := by
